@@ -51,7 +51,8 @@ type genState struct {
 	headSt       *state.StateDB
 	headNum      uint64
 	altCB        int
-	riskyPending int // risky actions submitted in the running period (see sim.risky)
+	evidenceFor  uint64 // round for which a genuine double-sign evidence was last posted to the main builder
+	riskyPending int    // risky actions submitted in the running period (see sim.risky)
 }
 
 func newGenState(c *kit.Chooser, a *actors) *genState {
@@ -821,8 +822,11 @@ func (s *sim) postEvidence() {
 	if len(votes) == 0 || ctx == nil {
 		return
 	}
-	variant := s.c.Weighted("evidence-variant", []int{6, 1, 1, 1, 1, 1})
-	if variant == 0 || variant == 4 {
+	variant := s.c.Weighted("evidence-variant", []int{6, 1, 1, 1, 1, 1, 2})
+	if variant == 6 && (len(votes) < 2 || s.g.slashes >= 1 || !s.risky(nil)) {
+		variant = 0
+	}
+	if variant == 0 || variant == 4 || variant == 6 {
 		// a real slash takes a validator out: keep the chain alive
 		if s.g.slashes >= 2 || !s.risky(nil) {
 			return
@@ -863,6 +867,8 @@ func (s *sim) postEvidence() {
 	case 5: // a future round
 		ev.Round += 3
 		desc = "future round"
+	case 6:
+		desc = "genuine (first of two validators)"
 	}
 	s.r.Logf("  evidence %s against %s round=%d index=%d", desc, sv.Key.Name(), ev.Round, ev.RoundIndex)
 	s.b.PostEvidence(staking.NewEvidence(ev), kit.Wait)
@@ -870,10 +876,28 @@ func (s *sim) postEvidence() {
 		third := crypto.Keccak256Hash([]byte("equivocation-2"), blockHash.Bytes())
 		s.b.PostEvidence(staking.NewEvidence(mk(sv, round, index, blockHash, third, sv.SigRaw)), kit.Wait)
 	}
-	if variant == 0 || variant == 4 {
-		s.g.slashes++
+	if variant == 6 {
+		// a second validator equivocated in the same round: two confirmed evidences in one block
+		var o *chainkit.SignedVote
+		for _, x := range votes {
+			if x.Key != sv.Key {
+				o = x
+				break
+			}
+		}
+		if o != nil {
+			s.r.Logf("  evidence genuine against %s round=%d index=%d (second validator)", o.Key.Name(), round, index)
+			s.b.PostEvidence(staking.NewEvidence(mk(o, round, index, blockHash, other, o.SigRaw)), kit.Wait)
+			s.g.slashes++
+		}
 	}
-	s.r.Fault("evidence-" + []string{"genuine", "late", "forged", "wrong-index", "twice", "future"}[variant])
+	if variant == 0 || variant == 4 || variant == 6 {
+		s.g.slashes++
+		if s.b == s.mainB {
+			s.g.evidenceFor = round
+		}
+	}
+	s.r.Fault("evidence-" + []string{"genuine", "late", "forged", "wrong-index", "twice", "future", "two-validators"}[variant])
 }
 
 // steerForge picks round index and proposer order of the next block. Validators that are not
